@@ -72,9 +72,17 @@ UNIT_TRUSTED["table_policy"] = [
     "NOT under contract: Condition::evalute (prefix sets via ip_network_table longest_match, neighbour / community / RPKI conditions), the actions, and the PolicyTable CRUD 'still referenced cannot be deleted' clause (rests on Arc::strong_count, outside any contract)",
 ]
 
+UNIT_TRUSTED["daemon_export"] = [
+    "prelude p_export: packet::Attribute opaque with uninterpreted observers (code / value / binary / is_opaque / is_transitive = field reads of the packet crate); the AS_PATH edits as_path_prepend / as_path_prepend_confed / as_path_strip_confed / as_path_count, with_partial_bit, new_with_value, new_with_bin, empty_as_path are NOT verified here: they enter as uninterpreted functions with assumed contracts (result keeps the code; constructors return Some for the well-known codes 5, 8, 9, 10 — canonical_flags table, Kani harness c05_canonical_flags_table); 'prepended exactly once' therefore means 'as_path_prepend is applied exactly once to the confed-stripped path'",
+    "table::Source kept outside Verus (atomics): remote_asn / local_asn read through accessor shims (R13); is_local (pointer identity), is_rr_client, is_rs_client assumed to return the role test they are named after; derive(PartialEq) on PeerRole structural; IpAddr::is_unspecified uninterpreted; Nexthop::addr = the address of the next hop",
+    "prelude p_iter: std iterator chains (iter().filter/map/cloned/filter_map…collect, any, find, partition_point) replaced by verified loops with Seq-algebra contracts (rewrite R12 / R12c; assumed: std's adapters behave like these loops); R11 helpers (assumed): Arc::make_mut(..).retain(p) keeps exactly the elements satisfying p, u32::from(Ipv4Addr).to_be_bytes() = the address octets, [u8]::to_vec copies, chunks(4).any(== pat) = some aligned 4-byte chunk equals pat",
+    "A-C09-1 (precondition of export_attrs / is_as_loop): every stored AS_PATH attribute holds a byte string (Attribute::decode guarantees it for wire input; as_path_* unwrap it)",
+    "NOT under contract: process_nlri_change (the caller that applies the echo filter `source.remote_addr == remote_addr`, then ibgp_split_horizon_suppress / rs_isolation_suppress, pre_policy_defaults, export policy, rr_reflect_attrs, with_llgr_stale_community, export_attrs in that order: generic sink, BMP taps, 11 parameters of table / policy types) and the inbound ORIGINATOR_ID / CLUSTER_LIST loop checks in rx_update (async): that the verified decision functions are consulted for every route and in this order is by inspection only",
+]
+
 # minimum number of functions that must produce obligations / of must-fail twins that must run
-FLOORS = {"daemon_fsm": 30, "daemon_gr": 4, "daemon_peer_tx": 7, "table_cmp": 20, "packet_validate": 1, "packet_parse": 1, "table_rpki": 3, "table_policy": 6}
-TWIN_FLOORS = {"daemon_fsm": 8, "daemon_gr": 3, "daemon_peer_tx": 2, "table_cmp": 4, "packet_validate": 1, "packet_parse": 1, "table_rpki": 1, "table_policy": 1}
+FLOORS = {"daemon_fsm": 30, "daemon_gr": 4, "daemon_peer_tx": 7, "table_cmp": 20, "packet_validate": 1, "packet_parse": 1, "table_rpki": 3, "table_policy": 6, "daemon_export": 10}
+TWIN_FLOORS = {"daemon_fsm": 8, "daemon_gr": 3, "daemon_peer_tx": 2, "table_cmp": 4, "packet_validate": 1, "packet_parse": 1, "table_rpki": 1, "table_policy": 1, "daemon_export": 1}
 
 PLAN = {
     "C01": {"verus": ["daemon_peer_tx"], "level": "proof"},
@@ -83,6 +91,7 @@ PLAN = {
             "explanation": "BOUNDED stand-in, not a proof: Kani/CBMC harnesses on the real IdAllocator::{alloc,dealloc} with <= 4 bitmap words (256 live ids per shard), every word over its full 64-bit domain, under the representation invariant 'no trailing zero word': alloc returns the least free id, which no live prefix holds, marks exactly it live and keeps the shard index in bits 31..24; dealloc frees exactly its id and restores the invariant. Only the identifier-uniqueness clause of C06 is addressed; the change-stream fold and the end-of-deferral clause live in Table::{insert,remove,end_deferral,...} (note T) and are not covered."},
     "C07": {"verus": ["daemon_fsm", "packet_parse"], "level": "proof"},
     "C08": {"verus": ["daemon_fsm"], "level": "proof"},
+    "C09": {"verus": ["daemon_export"], "level": "proof"},
     "C10": {"verus": ["daemon_gr"], "level": "proof"},
     "C12": {"verus": ["table_rpki"], "kani": ["c12_covering_key_v4", "c12_covering_key_v6"], "level": "proof"},
     "C14": {"verus": ["table_policy"], "level": "proof"},
